@@ -89,6 +89,7 @@ Next == /\ l <= Len(Trace)
              ELSE LET s == IF e.ev = "Enc" THEN StepEnc(e, secs[c], rxs[c])
                            ELSE IF e.ev = "Dec" THEN StepDec(e, secs[c], rxs[c])
                            ELSE IF e.ev = "Count" THEN StepCount(e, secs[c], rxs[c])
+                           ELSE IF e.ev = "Held" THEN [r |-> HeldVerdict(e), sec |-> secs[c], rx |-> rxs[c]]
                            ELSE [r |-> No("no action of the specification matches this event"), sec |-> secs[c], rx |-> rxs[c]]
                   IN /\ Report(l, e, s.r)
                      /\ secs' = [secs EXCEPT ![c] = s.sec] /\ rxs' = [rxs EXCEPT ![c] = s.rx]
